@@ -542,10 +542,7 @@ func c02NoLeakage(r *an.Run) {
 				}
 				r.Check(isAlloc, short(g)+"|store", x.Pos(), "package data only initialises freshly allocated nodes; it never writes into an existing Data value")
 			case *ssa.MapUpdate:
-				mk := false
-				if _, ok := x.Map.(*ssa.MakeMap); ok {
-					mk = true
-				}
+				mk := rootedAtFreshAlloc(x.Map)
 				r.Check(mk, short(g)+"|mapupdate", x.Pos(), "package data only fills maps it has just created")
 			}
 		}
